@@ -50,6 +50,28 @@ class P:
             for c in (1, 2, 3):
                 for k, v in ctxs[1].items(): rep_ops.append("CV:%d:%s:%s" % (c, hx(k), speceval.to_proto_value(v[1])))
             items.append((" ".join(rep_ops + ["EXEC:%d:%s" % (c, hx(src)) for c in (1, 2, 3)]), ("rep", None, None, len(rep_ops))))
+        # registrations made so far decide the parse - nothing parsed earlier does: an operator is registered, programs are
+        # parsed, the SAME operator is registered again with another precedence / associativity, programs are parsed again
+        # (same thread); every parse must group by the registrations made before it, exactly as in a process that never
+        # parsed anything earlier (oracle: the documented grouping under the table in force)
+        base = {n: (p, r_) for n, p, s_, r_ in gens.builtin_ops(build.table_path())[0]}
+        for _ in range(80 if tier == "quick" else 4000):
+            PT2 = dict(base)
+            words = rng.sample(["hi", "lo", "zed"], rng.randint(1, 2))
+            ops_, wants = [], []
+            def tree(d):
+                if d <= 0 or rng.random() < 0.3: return ("ref", rng.choice(["a", "b", "c"]))
+                return ("bin", rng.choice(words * 3 + ["+", "*", "==", "&&"]), tree(d - 1), tree(d - 1))
+            for _phase in range(rng.choice([2, 3])):
+                for w in words:
+                    pr = rng.choice([21, 39, 41, 59, 61, 99, 109, 111, 119, 121, 199, 201])
+                    right = rng.random() < 0.4
+                    PT2[w] = (pr, right)
+                    ops_.append("REGI:%s:%x:0:%d:0" % (hx(w), pr, 1 if right else 0)); wants.append(None)
+                for _k in range(3):
+                    t = tree(rng.choice([2, 3]))
+                    ops_.append("PARSE:" + hx(progs.render_min(t, PT2))); wants.append(progs.to_proto(t))
+            items.append((" ".join(ops_), ("regseq", None, wants, 0)))
         # soak: hundreds of failing evaluations of different depths on ONE persistent thread, then ordinary programs
         fails = ["1/0", "[1, [2, [3/0]]]", "nosuchfn()", "x = [a, [a, [a / 0]]]; x", "1 + true", "{1: [2, {3: 1 % 0}]}", "f(", "min()"]
         for rep in range(1 if tier == "quick" else 6):
@@ -97,6 +119,13 @@ class P:
         outs = impl.split(" ")[nset:]
         if any(o.split(":")[0] in ("PANIC", "DEADLOCK", "ABORT", "MISSING", "SKIP") for o in outs):
             return "violates", "a call did not return: " + " ".join(o[:10] for o in outs)
+        if kind == "regseq":
+            for want, o in zip(calls, outs):
+                if want is None: continue
+                pp = o.split(":")
+                if pp[0] != "OK" or pp[1] != want:
+                    return "violates", "parse after the registrations made so far: got %s, the table in force gives %s" % (o[:160], want[:160])
+            return "ok", ""
         if kind == "rep":
             base = outs[0].rsplit(":L[", 1)[0]
             d0 = values.split_exec(outs[0])
